@@ -104,6 +104,7 @@ B('C14.markdown-returns-raw-value', ['C14'], [(P + 'common/base.py', "          
 N('benign.markdown-text-through-local', [(P + 'common/base.py', "            if not isinstance(dict_value, dict):\n                return cls._markdown_result(dict_value, level)", "            if not isinstance(dict_value, dict):\n                rendered = cls._markdown_result(dict_value, level)\n                return rendered")])
 B('C14.list-plus-loosely-validated-field', ['C14'], [(P + 'ssh/key.py', "            ('certificate_chain', [self.public_key] + list(self.issuer_certificates)),", "            ('certificate_chain', [self.public_key] + self.issuer_certificates),")], mention='C14.R12')
 B('C14.json-date-in-its-own-zone', ['C14'], [(P + 'common/base.py', "            result = str(Serializable._get_date_time_in_utc(obj))", "            result = str(obj)")], mention='C14.R13')
+B('C01.truth-value-field-admits-integers', ['C01'], [(P + 'ssh/subprotocol.py', "    first_kex_packet_follows = attr.ib(converter=bool, validator=attr.validators.instance_of(bool), default=False)", "    first_kex_packet_follows = attr.ib(validator=attr.validators.instance_of(six.integer_types), default=0)")], mention='C01.R13')
 B('C02.unsupported-width', ['C02'], [(P + 'tls/extension.py', "        parser.parse_numeric('record_size_limit', 2)", "        parser.parse_numeric('record_size_limit', 5)")], props=['C02'])
 B('C02.raw-index', ['C02'], [(P + 'tls/extension.py', "        if parser['extension_data']:\n            raise InvalidValue(parser['extension_data'], cls)",
                              "        if parser['extension_data'][0]:\n            raise InvalidValue(parser['extension_data'], cls)")])
